@@ -202,7 +202,8 @@ def fast_csv_reader(source: Union[str, StringIO],
     cur_cell_char_count = np.int64(0)
     cur_cell_start = column_inds[col_index, row_index] if row_index >= 0 else np.int64(0)
     
-    index_for_cur_cell_start = np.int64(0)
+    # the first cell of this call starts where the call starts (a quoted first cell is legal there)
+    index_for_cur_cell_start = np.int64(start_index)
 
     is_column_inds_full = False
     is_column_vals_full = False
